@@ -173,6 +173,7 @@ fn cmd_batch(args: &[String]) {
     let replay_dir = arg(args, "--replay-dir").unwrap_or("/verif/replays").to_string();
     let wall_budget = arg_u64(args, "--wall-s", 0);
     let keep_digests = args.iter().any(|a| a == "--digests");
+    let progress = arg(args, "--progress").map(|s| s.to_string());
     std::panic::set_hook(Box::new(|_| {}));
     let t0 = std::time::Instant::now();
     let mut agg = Agg::default();
@@ -185,6 +186,10 @@ fn cmd_batch(args: &[String]) {
         if wall_budget > 0 && t0.elapsed().as_secs() >= wall_budget {
             budget_hit = true;
             break;
+        }
+        if let Some(p) = &progress {
+            // which run is in flight, should the process die inside the code under test
+            let _ = std::fs::write(p, format!("{}", index));
         }
         let w = workload_for(master, engine, &tier, index);
         let res = run_workload(&w, &RunOptions::default());
@@ -459,6 +464,73 @@ fn cmd_miri_run(args: &[String]) {
     }
 }
 
+/// Crash triage. A worker process died (signal) while running index `--index`. Decide whether the
+/// crash is inherent in single executions (every program executed once, alone, on a pristine root,
+/// no history, no sharing: that is input-dependent panic-freedom, not C05) or needs history/sharing.
+/// `--mode single`: run every (program, target) of the workload standalone. `--mode full`: run the
+/// workload as the worker did. The caller looks at how this process exits.
+fn cmd_triage(args: &[String]) {
+    let engine = engine_of(arg(args, "--engine").unwrap_or("s"));
+    let tier = arg(args, "--tier").unwrap_or("quick");
+    let master = arg_u64(args, "--seed", 1);
+    let index = arg_u64(args, "--index", 0);
+    let mode = arg(args, "--mode").unwrap_or("single");
+    std::panic::set_hook(Box::new(|_| {}));
+    let w = workload_for(master, engine, tier, index);
+    if mode == "full" {
+        let res = run_workload(&w, &RunOptions::default());
+        if let Some(p) = arg(args, "--write") {
+            // the run survived: nothing to write
+            let _ = p;
+        }
+        println!("triage full: survived (violation: {})", res.violation.map(|v| v.invariant).unwrap_or_else(|| "none".into()));
+        return;
+    }
+    if mode == "dump" {
+        let path = arg(args, "--write").unwrap_or_else(|| die("--write <file>"));
+        let rf = ReplayFile {
+            property: "C05".into(),
+            format: 1,
+            master_seed: master,
+            run_index: index,
+            cfg_flags: cfg_flags(),
+            workload: w.clone(),
+            schedule: vec![],
+            violation: ViolationInfo {
+                invariant: "process-crash".into(),
+                phase: "unknown".into(),
+                thread: 0,
+                op_index: 0,
+                expected: "the run completes".into(),
+                got: "the worker process was killed by a signal while executing this workload".into(),
+                detail: "memory corruption or abort inside the code under test that needs history or sharing to occur (every program of this workload survives when executed once, alone, on a pristine context)".into(),
+            },
+            minimised: false,
+            deterministic_replay: false,
+            event_log_tail: vec![],
+            notes: vec!["replay = run this workload in a fresh process; reproduced if the process dies or reports a violation".into()],
+        };
+        std::fs::write(path, serde_json::to_string_pretty(&rf).unwrap()).unwrap_or_else(|e| die(&format!("{}", e)));
+        return;
+    }
+    tls::install_hooks();
+    cel_interpreter::verif::set_hash_seed(w.knobs.hash_seed);
+    let c = run::compile_all(&w, false).unwrap_or_else(|e| die(&e));
+    tls::activate(0, None, 0, w.knobs.buggify_milli);
+    let mut n = 0;
+    for (i, p) in c.programs.iter().enumerate() {
+        for recipe in std::iter::once(&w.recipe).chain(w.private_recipes.iter()) {
+            let root = snap::build_root(recipe);
+            tls::begin_exec(i as u64, 0);
+            let _ = std::panic::catch_unwind(std::panic::AssertUnwindSafe(|| p.execute(&root.ctx)));
+            let inner = root.ctx.new_inner_scope();
+            let _ = std::panic::catch_unwind(std::panic::AssertUnwindSafe(|| p.execute(&inner)));
+            n += 2;
+        }
+    }
+    println!("triage single: {} standalone executions survived", n);
+}
+
 /// Debugging aid: print what each program of a generated workload yields on a pristine root.
 fn cmd_explain(args: &[String]) {
     let engine = engine_of(arg(args, "--engine").unwrap_or("s"));
@@ -496,6 +568,7 @@ fn main() {
         "minimise" => cmd_minimise(rest),
         "gen" => cmd_gen(rest),
         "explain" => cmd_explain(rest),
+        "triage" => cmd_triage(rest),
         "miri-gen" => cmd_miri_gen(rest),
         "miri-run" => cmd_miri_run(rest),
         _ => die("unknown command"),
